@@ -78,6 +78,19 @@ func (ld *Loaded) resolveType(pkg *types.Package, s string) types.Type {
 		return MathInt
 	case strings.HasPrefix(s, "*"):
 		return types.NewPointer(ld.resolveType(pkg, s[1:]))
+	case strings.HasPrefix(s, "map["):
+		depth := 0
+		for i := 3; i < len(s); i++ {
+			if s[i] == '[' {
+				depth++
+			} else if s[i] == ']' {
+				depth--
+				if depth == 0 {
+					return types.NewMap(ld.resolveType(pkg, s[4:i]), ld.resolveType(pkg, s[i+1:]))
+				}
+			}
+		}
+		sfail("bad map type %s", s)
 	case strings.HasPrefix(s, "[]"):
 		return types.NewSlice(ld.resolveType(pkg, s[2:]))
 	case strings.HasPrefix(s, "["):
@@ -818,6 +831,34 @@ func (ex *Exec) evalCall(env *Env, x *ECall) Val {
 		k := coerce(ex.eval(env, args[1]), mt.Key())
 		_, in := ex.mapGet(env.st, m, k.L)
 		return scalar(bt, And(in, Not(Eq(m.Term(), IntC(0)))))
+	case "washas", "wasat":
+		// washas(m, k) / wasat(m, k): membership / value of key k (evaluated now) in map m as it was in the old state
+		m := ex.eval(env, args[0])
+		mt, ok := m.T.Underlying().(*types.Map)
+		if !ok {
+			sfail("%s() on %s", name, m.T)
+		}
+		k := coerce(ex.eval(env, args[1]), mt.Key())
+		v, in := ex.mapGet(env.old, m, k.L)
+		if name == "washas" {
+			return scalar(bt, And(in, Not(Eq(m.Term(), IntC(0)))))
+		}
+		return v
+	case "visitedcount":
+		// visitedcount(m): number of keys produced so far by the current iteration over map m
+		m := ex.eval(env, args[0])
+		mi := mapKeys(m.T)
+		return scalar(types.Typ[types.Int], Select(env.st.get("RC:"+mi.dom, ArrS(IntS, BVS(64))), m.Term()))
+	case "visited":
+		// visited(m, k): key k was already produced by the current iteration over map m
+		m := ex.eval(env, args[0])
+		mt, ok := m.T.Underlying().(*types.Map)
+		if !ok {
+			sfail("visited() on %s", m.T)
+		}
+		k := coerce(ex.eval(env, args[1]), mt.Key())
+		mi := mapKeys(m.T)
+		return scalar(bt, selectN(Select(env.st.get("R:"+mi.dom, mi.domSort()), m.Term()), k.L))
 	case "fresh":
 		v := ex.eval(env, args[0])
 		return scalar(bt, IntLt(env.old.alloc(), v.L[0]))
